@@ -6,7 +6,7 @@ from harness import graphs as G
 from harness import strategies as S
 from harness.core import Acc, HarnessError, Violation, lib, must, must_raise
 from harness.hyp import job_seed, run_property, scaled
-from props.gcommon import DTYPE_NAMES, compare_sets, lib_debug, npints, pdag_codes, result_set, signed_copy, spoil, to_np
+from props.gcommon import DTYPE_NAMES, chain_variant, compare_sets, lib_debug, npints, pdag_codes, result_set, signed_copy, spoil, to_np
 
 PROP = "C10"
 RULE = ("imec(A, I) (shortcut and general path) and dag_to_icpdag(A, I) for every (DAG, I subset of nodes) pair on p<=4 nodes "
@@ -90,6 +90,8 @@ def check(case):
             continue
         if var == "weighted":
             A = signed_copy(D, case.get("salt", 0))
+        elif var in ("near_one", "tiny_extras", "tiny_extras_w"):
+            A = chain_variant(D, var[:11] if var.startswith("tiny") else var, case.get("salt", 0) * 2 + (var == "tiny_extras_w"))
         elif var == "scaled":
             A = 2.5 * to_np(D, float)
         elif var == "negated":
@@ -221,14 +223,14 @@ def _run_chain(acc, job):
         targets = [[], list(range(p))] + [[t] for t in range(p)] + [list(range(t)) for t in range(2, p)] + \
                   [[0, p - 1]] * (p >= 3) + [[t for t in range(p) if t % 2] for _ in (0,) if p >= 4]
         for I in targets:
-            variants = ["int", "float", "scaled", "weighted", "negated", "uint8", "bool"] + (["nochain"] if p <= job["p_nochain"] else [])
+            variants = ["int", "float", "scaled", "weighted", "negated", "uint8", "bool", "near_one"] + (["nochain"] if p <= job["p_nochain"] else [])
             case = {"sub": "chain", "A": G.lists_from_rows(chain), "I": I, "variants": variants, "salt": p + len(I)}
             cases = [case, dict(case, variants=["libchain", "int"])]
             if 3 <= p <= 7:
                 # the library's chain with one extra edge 0 -> 2 added by the caller (no longer a chain graph)
                 D2 = list(chain)
                 D2[0] |= 1 << 2
-                cases.append({"sub": "chain", "A": G.lists_from_rows(tuple(D2)), "I": I, "variants": ["libchain", "float"], "extra_edges": [[0, 2]], "salt": p})
+                cases.append({"sub": "chain", "A": G.lists_from_rows(tuple(D2)), "I": I, "variants": ["libchain", "float", "tiny_extras", "tiny_extras_w"], "extra_edges": [[0, 2]], "salt": p})
             for c in cases:
                 try:
                     lab = check(c)
@@ -245,6 +247,8 @@ def _hyp_case(draw):
     A = draw(S.dag_pattern(6, 9, shapes=("random", "collider", "collider", "dense", "chain", "sparse")))
     if draw(st.booleans()):
         A = draw(S.embedded(draw(S.dag_pattern(3, 6, shapes=("random", "dense", "collider", "collider", "complete")))))
+    elif draw(st.integers(0, 4)) == 0:
+        A = draw(S.disjoint_union(S.dag_pattern(2, 3, shapes=("random", "chain", "collider", "complete")), 3, 4))
     p = len(A)
     edges = [(i, j) for i in range(p) for j in range(p) if A[i][j]]
     if len(edges) > 11:
